@@ -9,7 +9,7 @@ ID=$1; WT=$2; PROP=$3
 OUT=/verif/seeded/$ID
 mkdir -p $OUT
 cd $WT || exit 2
-git diff > $OUT/patch.diff
+git add -A -- circus; git diff --cached -- circus > $OUT/patch.diff; git reset -q
 DEMO=$(ls demo_*.py 2>/dev/null | head -1)
 [ -n "$DEMO" ] && cp $DEMO $OUT/
 {
@@ -17,7 +17,7 @@ echo "seed $ID property $PROP worktree $WT"
 echo "--- patch stat"; git diff --stat | cat
 if [ -n "$DEMO" ]; then
   PYTHONPATH=$WT timeout 120 /venv/bin/python $DEMO > $OUT/demo_with.log 2>&1; W=$?
-  git diff > /tmp/seed_eval.patch; git apply -R /tmp/seed_eval.patch
+  cp $OUT/patch.diff /tmp/seed_eval.patch; git apply -R /tmp/seed_eval.patch
   PYTHONPATH=$WT timeout 120 /venv/bin/python $DEMO > $OUT/demo_without.log 2>&1; WO=$?
   git apply /tmp/seed_eval.patch
   echo "demo with change: exit $W ; without change: exit $WO"
@@ -30,7 +30,7 @@ for p in C01 C02 C03 C04 C05 C06 C07 C08 C09 C10 C11 C12 C13 C14 C15 C16 C17 C18
   ./check $p --no-write > $OUT/check_$p.log 2>&1; rc=$?
   if [ $rc -ne 0 ]; then DET="$DET $p(rc=$rc)"; fi
 done
-cd /repo && git checkout -- . && cd /verif
+cd /repo && git apply -R $OUT/patch.diff; git checkout -- . ; cd /verif
 echo "checks raising an alarm:$DET"
 echo "--- report of the target property $PROP"
 grep -v conda $OUT/check_$PROP.log | cut -c1-300 | head -20
